@@ -36,6 +36,7 @@ def main():
     ap.add_argument("--tier", default="quick")
     ap.add_argument("--keep", default=None)
     ap.add_argument("--skip-suite", action="store_true")
+    ap.add_argument("--skip-demo", action="store_true")
     ap.add_argument("--root", default="seeded", help="directory under /verif that --keep stores into (seeded | benign)")
     a = ap.parse_args()
     src = os.path.abspath(a.src)
@@ -71,13 +72,23 @@ def main():
                 print(out[-1500:])
         # demonstration
         run = os.path.join(src, "run.sh")
-        if os.path.exists(run):
+        made = []
+        if os.path.exists(run) and not a.skip_demo:
+            # the sub-agents' scripts keep scratch data under their own /tmp/seed*_out directory and assume it exists
+            # (with it missing, `mktemp -d /tmp/seedX_out/...` fails and the script would write into the current directory)
+            for d in sorted(set(re.findall(r"/tmp/seed\w*_out", open(run).read()))):
+                if not os.path.exists(d):
+                    os.makedirs(d)
+                    made.append(d)
+        if os.path.exists(run) and not a.skip_demo:
             rc0, out0 = sh(["bash", run, clean], cwd=src, timeout=1800)
             rc1, out1 = sh(["bash", run, scratch], cwd=src, timeout=1800)
             result["demo_unchanged_rc"], result["demo_patched_rc"] = rc0, rc1
             print("demo: unchanged rc=%s, patched rc=%s" % (rc0, rc1))
             if rc0 != 0:
                 print(out0[-800:])
+        for d in made:
+            shutil.rmtree(d, ignore_errors=True)
         # our checks
         checks = (a.checks or a.pid).split(",")
         tiers = ["quick", "thorough"] if a.tier == "both" else [a.tier]
